@@ -92,6 +92,13 @@ def calInput : PyVal → Except Err Rat
   | .flt .negZero => .ok 0
   | _ => .error .unsupported
 
+/-- The calibrator's input: a NaN raw value (a float field may hold one) lies in no spline's range — neither inside nor,
+    for the comparisons that guard extrapolation, outside — and is a `CalibrationError` whatever `extrapolate` says. -/
+def calInputFor (cal : Calibrator) (v : PyVal) : Except Err Rat :=
+  match cal, v with
+  | .spline _, .flt .nan => .error .calibration
+  | _, v => calInput v
+
 def calOutput (r : Rat) : Except Err PyVal :=
   if isDouble r then .ok (.flt (.fin r)) else .error .unsupported
 
@@ -115,7 +122,7 @@ def NumEnc.rawValue (e : NumEnc) (raw : Raw) : Except Err (PyVal × Raw) :=
 
 /-- Apply a calibrator to a raw value: the result is always a float parameter carrying the raw value. -/
 def applyCal (cal : Calibrator) (parsed : PyVal) : Except Err Param := do
-  let x ← calInput parsed
+  let x ← calInputFor cal parsed
   let y ← cal.calibrate x
   let v ← calOutput y
   pure (mkParam .FloatP v (some parsed))
